@@ -4,7 +4,6 @@ import (
 	"fmt"
 	"strings"
 
-	"github.com/CrowdStrike/csproto"
 	"github.com/CrowdStrike/csproto/lazyproto"
 
 	"csverif/internal/fw"
@@ -64,21 +63,8 @@ func lazyLiveCase(c *fw.Ctx) {
 			break
 		}
 	}
-	opt := optCombo{fast: r.Bool(), maxBuf: []int{-1, -1, 0, 1, 2, 64}[r.Intn(6)], filter: r.Intn(3)}
-	mode := csproto.DecoderModeSafe
-	if opt.fast {
-		mode = csproto.DecoderModeFast
-	}
-	opts := []lazyproto.Option{lazyproto.WithMode(mode)}
-	if opt.maxBuf >= 0 {
-		opts = append(opts, lazyproto.WithMaxBufferSize(opt.maxBuf))
-	}
-	switch opt.filter {
-	case 1:
-		opts = append(opts, lazyproto.WithBufferFilterFunc(func(capacity int) int { return 1 }))
-	case 2:
-		opts = append(opts, lazyproto.WithBufferFilterFunc(func(capacity int) int { return capacity / 2 }))
-	}
+	opt := genOptCombo(r)
+	opts := opt.options()
 	dec, err := lazyproto.NewDecoder(def.toDef(), opts...)
 	if err != nil {
 		return
